@@ -197,6 +197,7 @@ func (h *x13H) runProduct(i int, c x13Case) {
 	tree, names, _ := p.build(c.tuple)
 	h.kind = p.Kind
 	h.reqClass, h.caseSigs = "", map[string]bool{}
+	h.caseIdx, h.boundFull = i, false
 	h.desc = map[string]interface{}{"kind": p.Kind, "seed": p.Kind + "#sections", "mutations": names, "yaml": x13ToYAML(tree)}
 	r.Case(i, h.desc)
 	r.Count(x13ProdCounter(p.Kind, "total"), 1)
